@@ -7,6 +7,7 @@
 import JS.Channels
 import JS.Chan.CLI
 import JS.Chan.SYS
+import JS.Chan.DER
 open JS JS.Codec
 
 /-- channels living in their own modules (they import JS.Channels) are dispatched here -/
@@ -14,6 +15,7 @@ def dispatch (ch : String) (env : Env) (p : Json) : Except Query Json :=
   match ch with
   | "CLI" => JS.Chan.CLI.run env p
   | "SYS" => JS.Chan.SYS.run env p
+  | "DER" => JS.Chan.DER.run env p
   | _ => Channels.run ch env p
 
 partial def serve (hin hout : IO.FS.Stream) : IO Unit := do
